@@ -65,7 +65,7 @@ def build_vx():
     return out
 
 
-FACT_SECTIONS = ['Consts', 'MsgTables', 'Writers', 'Structs', 'Accesses', 'RaceAux', 'Cmd', 'Sup', 'ReadFacts', 'Chans', 'Gate']
+FACT_SECTIONS = ['Consts', 'MsgTables', 'Writers', 'Structs', 'Accesses', 'RaceAux', 'Cmd', 'Sup', 'ReadFacts', 'Chans', 'Gate', 'ProbeFacts']
 GENBASE = os.path.join(VERIF, 'pinned', 'gen')     # Gen modules as regenerated from the pinned tree (committed)
 
 
